@@ -184,3 +184,54 @@ func (v *VerifBatch) Ready(req *tikvpb.BatchCommandsRequest_Request) bool {
 }
 
 func (v *VerifBatch) Close() { v.a.Close() }
+
+// RunSendLoop starts the REAL batchSendLoop on this batchConn (basic batch policy, no wait strategy).
+func (v *VerifBatch) RunSendLoop(maxBatch uint) {
+	cfg := config.GetGlobalConfig().TiKVClient
+	cfg.MaxBatchSize = maxBatch
+	cfg.MaxBatchWaitTime = 0
+	cfg.BatchPolicy = config.BatchPolicyBasic
+	go v.a.batchSendLoop(cfg)
+}
+
+// PushNil puts a nil entry into batchCommandsCh: fetchAllPendingRequests returns on it without pushing anything.
+func (v *VerifBatch) PushNil() { v.a.batchCommandsCh <- nil }
+
+// DrainNil removes nil sentinels left in batchCommandsCh; returns the number of NON-nil entries it had to put back.
+func (v *VerifBatch) DrainNil() int {
+	var keep []*batchCommandsEntry
+	for {
+		select {
+		case e := <-v.a.batchCommandsCh:
+			if e != nil {
+				keep = append(keep, e)
+			}
+			continue
+		default:
+		}
+		break
+	}
+	for _, e := range keep {
+		v.a.batchCommandsCh <- e
+	}
+	return len(keep)
+}
+
+// RegisterChannel records the entries waiting in batchCommandsCh (request pointer -> entry) without changing the
+// channel's content or order.  Only called while no loop is consuming the channel.
+func (v *VerifBatch) RegisterChannel() {
+	n := len(v.a.batchCommandsCh)
+	tmp := make([]*batchCommandsEntry, 0, n)
+	for i := 0; i < n; i++ {
+		e := <-v.a.batchCommandsCh
+		if e != nil {
+			v.entries[e.req] = e
+		}
+		tmp = append(tmp, e)
+	}
+	for _, e := range tmp {
+		v.a.batchCommandsCh <- e
+	}
+}
+
+func VerifPanicCount() int64 { return atomic.LoadInt64(&BatchSendLoopPanicCounter) }
